@@ -4,7 +4,7 @@ import vlib
 from vlib import Check, zlit, coq_bool
 
 TN = {"C": "Continue", "J": "Jump", "S": "Stop"}
-IM = {"vec": "IVec", "concrete": "IConcrete", "dyn": "IDyn"}
+IM = {"vec": "IVec", "concrete": "IConcrete", "dyn": "IDyn"}   # "expr"/"tuple" are rendered as gtree
 F1 = ("C42-F1 TreeNodeContainer tuples (common/src/tree_node.rs): a Jump returned by the callback on the last real child "
       "is reset to Continue when only EMPTY sibling containers follow it (Option::None / empty Vec answer Ok(Continue) / "
       "Transformed::no, and visit_sibling/transform_sibling let that override the Jump). Seen on real Expr trees: "
@@ -18,8 +18,9 @@ def groups_ok(gs):
     return not any(g and i + 1 < len(gs) and all(len(x) == 0 for x in gs[i + 1:]) for i, g in enumerate(gs))
 
 
-def well_grouped(t):
-    return groups_ok(groups(t[0], t[1])) and all(well_grouped(c) for c in t[1])
+def well_grouped(t, grp=None):
+    grp = grp or groups
+    return groups_ok(grp(t[0], t[1])) and all(well_grouped(c, grp) for c in t[1])
 
 METH = {"down": "MDown", "up": "MUp", "up_syn": "MUp", "down_up": "MDownUp", "rewrite": "MRewrite",
         "map_children": "MMapChildren"}
@@ -48,8 +49,19 @@ def groups(l, cs):
     raise ValueError((l, cs))
 
 
-def gtree(t):
-    return "(GNode %s [%s])" % (zlit(t[0]), "; ".join("[%s]" % "; ".join(gtree(c) for c in g) for g in groups(t[0], t[1])))
+def groups_tuple(l, cs):
+    """the (Option<Box>, Vec, Option<Box>) containers of the harness' TNode (see c42.rs TNode::build)"""
+    cs = list(cs)
+    first = [cs.pop(0)] if l % 2 == 1 and cs else []
+    last = [cs.pop()] if (l // 2) % 2 == 1 and cs else []
+    return [first, cs, last]
+
+
+GROUPING = {"expr": groups, "tuple": groups_tuple}
+
+
+def gtree(t, grp=groups):
+    return "(GNode %s [%s])" % (zlit(t[0]), "; ".join("[%s]" % "; ".join(gtree(c, grp) for c in g) for g in grp(t[0], t[1])))
 
 
 def log(l):
@@ -66,8 +78,8 @@ def rtab(t):
 
 def render(c):
     k = c["k"]
-    if c["im"] == "expr":
-        t = gtree(c["t"])
+    if c["im"] in GROUPING:
+        t = gtree(c["t"], GROUPING[c["im"]])
         if k == "apply":
             return "GApply %s %s %s %s" % (t, vtab(c["tab"]), log(c["log"]), TN[c["res"]])
         if k == "apply_children":
@@ -215,7 +227,7 @@ def run(pid, tier, seed, replay):
         key = "%s/%s" % (c.get("m") or c["k"], c["im"])
         kinds[key] = kinds.get(key, 0) + 1
         if not c.get("ok", False):
-            if c["im"] == "expr" and not c.get("panic") and not well_grouped(c["t"]):
+            if c["im"] in GROUPING and not c.get("panic") and not well_grouped(c["t"], GROUPING[c["im"]]):
                 # the documented contract is violated exactly in the way proved by
                 # Props/C42.v C42_trailing_empty_container_refuted (whether the observation matches that
                 # model is checked by the correspondence below)
@@ -258,6 +270,8 @@ def run(pid, tier, seed, replay):
         "max_tree_nodes": max(sizes),
         "expr_cases": len(ecases),
         "expr_cases_not_well_grouped": sum(1 for c in ecases if not well_grouped(c["t"])),
+        "tuple_container_cases": sum(1 for c in cases if c["im"] == "tuple"),
+        "tuple_container_cases_not_well_grouped": sum(1 for c in cases if c["im"] == "tuple" and not well_grouped(c["t"], groups_tuple)),
         "finding_C42_F1_hits": len(f1_hits),
         "samples": [cases[0]] + pick[:2] + [c for c in cases if c["k"] == "visit" and tsize(c["t"]) >= 6][:1],
         "trusted_base": vlib.TRUSTED_COMMON + [
